@@ -217,6 +217,18 @@ def main : IO UInt32 := do
   bad := bad + (← firstDiff "getRemoteIP" hvals q
     (fun v => showM (fun r => showCI (toCI r)) (Gen.Tr.getRemoteIP Ei { header := fun _ => [], host := [], urlScheme := [], requestURI := [], scope := none, remoteAddr := v }))
     (fun v => showCI (O2P.getRemoteIP T v)))
+  -- auth-only constraints: queries with repeated / empty / comma-joined values × sessions
+  let aqs : List (List (Str × Str)) := ([[], [("allowed_emails", "a@b")], [("allowed_emails", "a@b,")], [("allowed_emails", ",")], [("allowed_emails", "")], [("allowed_emails", "x@y,a@b")],
+    [("allowed_emails", "x@y"), ("allowed_emails", "a@b")], [("allowed_groups", "g1")], [("allowed_groups", "g2,g1")], [("allowed_groups", ",,")], [("allowed_groups", "g3"), ("other", "g1")],
+    [("allowed_groups", " g1")], [("allowed_emails", "a@b "), ("allowed_groups", "g1,")]] : List (List (String × String))).map (·.map fun kv => (kv.1.toList, kv.2.toList))
+  let asess : List Go.Session := [{ Email := "a@b".toList, Groups := ["g1".toList] }, { Email := [], Groups := [] }, { Email := "x@y".toList, Groups := ["g0".toList, "g2".toList] }, { Email := "a@b ".toList, Groups := [[]] }]
+  let acases := aqs.flatMap fun qq => asess.map fun ss => (qq, ss)
+  let showA : List (Str × Str) × Go.Session → String := fun p => "query=" ++ toString (p.1.map fun kv => (String.ofList kv.1, String.ofList kv.2)) ++ " email=" ++ q p.2.Email ++ " groups=" ++ qs p.2.Groups
+  let mkA (qq : List (Str × Str)) : Go.Req := { header := fun _ => [], host := [], urlScheme := [], requestURI := [], scope := none, query := fun k => (qq.filter (fun kv => kv.1 = k)).map (·.2) }
+  bad := bad + (← firstDiff "checkAllowedEmails" acases showA
+    (fun p => showM bstr (Gen.Tr.checkAllowedEmails E0 (mkA p.1) p.2)) (fun p => bstr (Authz.checkAllowedEmails p.1 ⟨p.2.Email, p.2.Groups⟩)))
+  bad := bad + (← firstDiff "checkAllowedGroups" acases showA
+    (fun p => showM bstr (Gen.Tr.checkAllowedGroups E0 (mkA p.1) p.2)) (fun p => bstr (Authz.checkAllowedGroups p.1 ⟨p.2.Email, p.2.Groups⟩)))
   IO.println s!"trsearch: {bad} function(s) with a disagreement"
   return (if bad == 0 then 0 else 1)
 
